@@ -357,7 +357,7 @@ def cross_check_oracle(binary, prop, seed, n):
     return agree, disagree, skipped, bad
 
 
-def check_diff(prop, tier, seed, level="exploration", profiles=("release",), quick=(24000, 90), thorough=(500000, 900), floors=(), extra=(), sanitize=False, memcheck=False):
+def check_diff(prop, tier, seed, level="exploration", profiles=("release",), quick=(24000, 90), thorough=(500000, 900), floors=(), extra=(), sanitize=False, memcheck=False, miri=False):
     t0 = time.time()
     merged = Merge()
     count, secs = tier_counts(tier, quick, thorough)
@@ -372,6 +372,12 @@ def check_diff(prop, tier, seed, level="exploration", profiles=("release",), qui
                          env_extra={"ASAN_OPTIONS": "abort_on_error=1:halt_on_error=1:detect_leaks=0", "HV_ALLOC_PASS": "1"})
         merged.add("asan", res)
         merged.counters["asan_evaluations"] = merged.stage_counters.get("asan", {}).get("evaluations", 0)
+    if miri and tier == "thorough":
+        # UB interpreter on a reduced in-process workload (no fork under Miri; JIT excluded)
+        m = build_miri()
+        res = run_shards(m, "mdiff", prop, "miri", seed + 3, tier, NCPU, 4, 3000, env_extra=MIRI_ENV)
+        merged.add("miri", res)
+        merged.counters["miri_evaluations"] = merged.stage_counters.get("miri", {}).get("evaluations", 0)
     if memcheck and tier == "thorough":
         # second opinion on the JIT's own loads/stores: valgrind memcheck on the release harness
         res = run_shards(bins[profiles[0]], "diff", prop, "memcheck", seed + 2, tier, NCPU, 600, 900, extra=list(extra) + ["--no-corpus"],
@@ -839,10 +845,10 @@ def main():
         return replay(sys.argv[2])
     table = {
         "C01": lambda: check_diff("C01", tier, seed, floors=[("opt:motion.linear", 1), ("opt:loop.finite_symbolic", 1)]),
-        "C02": lambda: check_diff("C02", tier, seed, profiles=("release", "dbg"), sanitize=True),
+        "C02": lambda: check_diff("C02", tier, seed, profiles=("release", "dbg"), sanitize=True, miri=True),
         "C03": lambda: check_diff("C03", tier, seed, memcheck=True),
-        "C04": lambda: check_diff("C04", tier, seed, sanitize=True),
-        "C06": lambda: check_diff("C06", tier, seed, quick=(6000, 90), thorough=(120000, 900), sanitize=True, memcheck=True),
+        "C04": lambda: check_diff("C04", tier, seed, sanitize=True, miri=True),
+        "C06": lambda: check_diff("C06", tier, seed, quick=(6000, 90), thorough=(120000, 900), sanitize=True, memcheck=True, miri=True),
         "C07": lambda: check_diff("C07", tier, seed, quick=(4000, 90), thorough=(80000, 900)),
         "C08": lambda: check_diff("C08", tier, seed, level="fault_enumeration", quick=(3000, 90), thorough=(60000, 900)),
         "C05": lambda: check_cmd("C05", tier, seed, "c05", 700, 12000, "exploration", C05_RULE, DIFF_ASSUME + [
